@@ -128,6 +128,7 @@ class Rec:
         self.used_dev = set()
         self.monitors = set(case.get("monitors", []))
         self.hook = None  # optional callable(rec, event, payload)
+        self.spy_errors = []  # failures of the harness' own bookkeeping (never of the code under test)
 
     def tick(self, fid):
         k = self.counts.get(fid, 0) + 1
@@ -438,6 +439,13 @@ _INSTALLED = False
 _ORIG = {}
 
 
+def _spy_failed(rec, where):
+    """The harness' own bookkeeping failed (e.g. an internal name it reads was refactored away): remember it so that
+    the run is reported as a harness error, never as a verdict, and let the code under test proceed untouched."""
+    import traceback
+    rec.spy_errors.append(where + ": " + traceback.format_exc(limit=4)[-400:])
+
+
 def install_spies():
     global _INSTALLED
     if _INSTALLED:
@@ -448,44 +456,54 @@ def install_spies():
     orig_call = cproblem.Problem.__call__
     _ORIG["Problem.__call__"] = orig_call
 
-    def spy_call(self, x, penalty=0.0):
+    def spy_call(self, *a, **kw):
         rec = CUR
         if rec is None:
-            return orig_call(self, x, penalty)
-        idx = len(rec.pcalls)
-        xa = np.array(x, dtype=float, copy=True)
-        ent = {
-            "idx": idx,
-            "x": xa,
-            "penalty": penalty,
-            "phase": rec.phase,
-            "kind": rec.step_kind if rec.phase == "main" else rec.phase,
-            "c0": len(rec.calls),
-            "ret": None,
-            "exc": None,
-            "nested_in": rec.open_pcall,
-        }
-        if rec.pb is None:
-            rec.pb = self
-        rec.pcalls.append(ent)
+            return orig_call(self, *a, **kw)
+        ent = None
         prev = rec.open_pcall
-        rec.open_pcall = idx
         try:
-            ret = orig_call(self, x, penalty)
-            ent["ret"] = (float(ret[0]), np.array(ret[1], copy=True),
-                          np.array(ret[2], copy=True))
-            return ret
+            x = a[0] if a else kw.get("x")
+            penalty = a[1] if len(a) > 1 else kw.get("penalty", 0.0)
+            idx = len(rec.pcalls)
+            ent = {
+                "idx": idx,
+                "x": np.array(x, dtype=float, copy=True),
+                "penalty": penalty,
+                "phase": rec.phase,
+                "kind": rec.step_kind if rec.phase == "main" else rec.phase,
+                "c0": len(rec.calls),
+                "ret": None,
+                "exc": None,
+                "nested_in": rec.open_pcall,
+            }
+            if rec.pb is None:
+                rec.pb = self
+            rec.pcalls.append(ent)
+            rec.open_pcall = idx
+        except Exception:  # noqa
+            _spy_failed(rec, "Problem.__call__ (before)")
+        try:
+            ret = orig_call(self, *a, **kw)
         except BaseException as e:
-            ent["exc"] = type(e).__name__
-            raise
-        finally:
-            ent["c1"] = len(rec.calls)
+            if ent is not None:
+                ent["exc"] = type(e).__name__
+                ent["c1"] = len(rec.calls)
             rec.open_pcall = prev
-            if "filter" in rec.monitors:
-                ent["filter"] = (list(self._fun_filter),
-                                 list(self._maxcv_filter))
-            if rec.hook is not None:
+            raise
+        try:
+            if ent is not None:
+                ent["ret"] = (float(ret[0]), np.array(ret[1], copy=True), np.array(ret[2], copy=True))
+                ent["c1"] = len(rec.calls)
+                if "filter" in rec.monitors:
+                    ent["filter"] = (list(self._fun_filter), list(self._maxcv_filter))
+            rec.open_pcall = prev
+            if rec.hook is not None and ent is not None:
                 rec.hook(rec, "pcall", ent)
+        except Exception:  # noqa
+            rec.open_pcall = prev
+            _spy_failed(rec, "Problem.__call__ (after)")
+        return ret
 
     cproblem.Problem.__call__ = spy_call
 
@@ -494,18 +512,22 @@ def install_spies():
     orig_init = TR.__init__
     _ORIG["TrustRegion.__init__"] = orig_init
 
-    def spy_init(self, pb, options, constants):
+    def spy_init(self, *a, **kw):
         rec = CUR
         if rec is None:
-            return orig_init(self, pb, options, constants)
+            return orig_init(self, *a, **kw)
         rec.phase = "init"
-        rec.pb = pb
+        rec.pb = a[0] if a else kw.get("pb")
         rec.framework = self
         try:
-            return orig_init(self, pb, options, constants)
+            return orig_init(self, *a, **kw)
         finally:
             rec.phase = "main"
-            rec.notes["options_after_init"] = dict(options)
+            try:
+                opts = a[1] if len(a) > 1 else kw.get("options")
+                rec.notes["options_after_init"] = dict(opts)
+            except Exception:  # noqa
+                _spy_failed(rec, "TrustRegion.__init__")
 
     TR.__init__ = spy_init
 
@@ -518,10 +540,13 @@ def install_spies():
             rec = CUR
             if rec is None:
                 return orig(self, *a, **kw)
-            if kind == "tr" and "tr" in rec.monitors:
-                rec.tr.append(_tr_state(self, rec))
-            elif kind == "tr" and "pts" in rec.monitors:
-                rec.tr.append(_pts_state(self))
+            try:
+                if kind == "tr" and "tr" in rec.monitors:
+                    rec.tr.append(_tr_state(self, rec))
+                elif kind == "tr" and "pts" in rec.monitors:
+                    rec.tr.append(_pts_state(self))
+            except Exception:  # noqa
+                _spy_failed(rec, "TrustRegion." + name + " (monitor)")
             out = orig(self, *a, **kw)
             rec.step_kind = kind
             if "steps" in rec.monitors:
@@ -540,17 +565,20 @@ def install_spies():
     orig_sbi = TR.set_best_index
     _ORIG["TrustRegion.set_best_index"] = orig_sbi
 
-    def spy_sbi(self):
-        out = orig_sbi(self)
+    def spy_sbi(self, *a, **kw):
+        out = orig_sbi(self, *a, **kw)
         rec = CUR
         if rec is not None and "centre" in rec.monitors and hasattr(self, "_models"):
-            m = self.models
-            merits, viols = [], []
-            for k in range(m.npt):
-                xk = m.interpolation.point(k)
-                merits.append(float(self.merit(xk, m.fun_val[k], m.cub_val[k, :], m.ceq_val[k, :])))
-                viols.append(float(self._pb.maxcv(xk, m.cub_val[k, :], m.ceq_val[k, :])))
-            rec.notes.setdefault("centres", []).append((int(self.best_index), merits, viols))
+            try:
+                m = self.models
+                merits, viols = [], []
+                for k in range(m.npt):
+                    xk = m.interpolation.point(k)
+                    merits.append(float(self.merit(xk, m.fun_val[k], m.cub_val[k, :], m.ceq_val[k, :])))
+                    viols.append(float(self._pb.maxcv(xk, m.cub_val[k, :], m.ceq_val[k, :])))
+                rec.notes.setdefault("centres", []).append((int(self.best_index), merits, viols))
+            except Exception:  # noqa
+                _spy_failed(rec, "TrustRegion.set_best_index (monitor)")
         return out
 
     TR.set_best_index = spy_sbi
@@ -558,12 +586,16 @@ def install_spies():
     orig_idx = TR.get_index_to_remove
     _ORIG["TrustRegion.get_index_to_remove"] = orig_idx
 
-    def spy_idx(self, x_new=None):
-        out = orig_idx(self, x_new)
+    def spy_idx(self, *a, **kw):
+        out = orig_idx(self, *a, **kw)
         rec = CUR
         if rec is not None and "tr" in rec.monitors:
-            rec.notes.setdefault("removals", []).append(
-                (int(out[0]), int(self.best_index), x_new is not None))
+            try:
+                x_new = a[0] if a else kw.get("x_new")
+                rec.notes.setdefault("removals", []).append(
+                    (int(out[0]), int(self.best_index), x_new is not None))
+            except Exception:  # noqa
+                _spy_failed(rec, "TrustRegion.get_index_to_remove (monitor)")
         return out
 
     TR.get_index_to_remove = spy_idx
@@ -572,25 +604,33 @@ def install_spies():
     orig_build = cmain._build_result
     _ORIG["_build_result"] = orig_build
 
-    def spy_build(pb, penalty, success, status, n_iter, options):
+    import inspect
+    build_sig = inspect.signature(orig_build)
+
+    def spy_build(*a, **kw):
         rec = CUR
         if rec is not None:
-            rec.pb = pb
-            rec.phase = "result"
-            fw = rec.framework
-            rec.build = {
-                "penalty": float(penalty),
-                "success_in": bool(success),
-                "status": status.value,
-                "n_iter": int(n_iter),
-                "options": dict(options),
-                "resolution": None if fw is None or not hasattr(fw, "_resolution")
-                else float(fw.resolution),
-                "radius": None if fw is None or not hasattr(fw, "_radius")
-                else float(fw.radius),
-                "ncalls_before": len(rec.calls),
-            }
-        return orig_build(pb, penalty, success, status, n_iter, options)
+            try:
+                vals = list(build_sig.bind(*a, **kw).arguments.values())  # by position: robust to renaming
+                b = dict(zip(["pb", "penalty", "success", "status", "n_iter", "options"], vals))
+                rec.pb = b["pb"]
+                rec.phase = "result"
+                fw = rec.framework
+                rec.build = {
+                    "penalty": float(b["penalty"]),
+                    "success_in": bool(b["success"]),
+                    "status": b["status"].value,
+                    "n_iter": int(b["n_iter"]),
+                    "options": dict(b["options"]),
+                    "resolution": None if fw is None or not hasattr(fw, "_resolution")
+                    else float(fw.resolution),
+                    "radius": None if fw is None or not hasattr(fw, "_radius")
+                    else float(fw.radius),
+                    "ncalls_before": len(rec.calls),
+                }
+            except Exception:  # noqa
+                _spy_failed(rec, "_build_result")
+        return orig_build(*a, **kw)
 
     cmain._build_result = spy_build
 
@@ -606,7 +646,10 @@ def install_spies():
                 out = orig(self, *a, **kw)
                 rec = CUR
                 if rec is not None and "models" in rec.monitors:
-                    _models_check(rec, self, name, a, out)
+                    try:
+                        _models_check(rec, self, name, a, out)
+                    except Exception:  # noqa
+                        _spy_failed(rec, "Models." + name + " (monitor)")
                 return out
             return spy
 
@@ -614,11 +657,14 @@ def install_spies():
     orig_minit = M.__init__
     _ORIG["Models.__init__"] = orig_minit
 
-    def spy_minit(self, pb, options, penalty):
-        out = orig_minit(self, pb, options, penalty)
+    def spy_minit(self, *a, **kw):
+        out = orig_minit(self, *a, **kw)
         rec = CUR
         if rec is not None and "models" in rec.monitors:
-            _models_check(rec, self, "init", (), None)
+            try:
+                _models_check(rec, self, "init", (), None)
+            except Exception:  # noqa
+                _spy_failed(rec, "Models.__init__ (monitor)")
         return out
 
     M.__init__ = spy_minit
@@ -748,6 +794,9 @@ def run(case, timeout=60.0, hook=None):
         if restore is not None:
             restore()
     rec.stdout = buf.getvalue()
+    if rec.spy_errors:
+        raise common.HarnessError("the harness' monitors failed (an internal name they read has probably changed): "
+                                  + rec.spy_errors[0])
     for key in rec.dev:
         if key not in rec.used_dev:
             rec.notes.setdefault("unused_dev", []).append(key)
